@@ -323,7 +323,8 @@ pub fn scenario(check: &str, keys: Vec<String>, vals: Vec<Value>, steps: Vec<Val
         "check": check,
         "keys": keys,
         "vals": vals,
-        "clock0": (1_500_000_000_000u64 + rng.below(1 << 38)).to_string(),
+        // anywhere from 2017 to 2035: behind and ahead of the real clock that stamps the files
+        "clock0": (1_500_000_000_000u64 + rng.below(1 << 39)).to_string(),
         "steps": steps,
     })
 }
